@@ -136,7 +136,173 @@ def c01(d, run):
     run.assumptions = ["policy-level part of C01; cache-level part (all API paths, concurrency) in the Cache stages"]
 
 
+# ----------------------------------------------------------------------------- cache-level checks
+
+ALL_INV = ["UsedIsSum", "Bounded", "Agree", "Conservation", "NeverTwice", "NothingLost", "ResidentOwned",
+           "IndexExact", "NoOrphan", "MetricsLaws"]
+ALL_CMP = ["store", "em", "costs", "chan", "life", "met", "cbs", "out"]
+
+MC_NAMES = {
+    "seq": "MC_Cache_seq (1 client x 4 calls; colliding keys; veto validator; internal cost 1; insert/insert_if_present/remove/get/clear/set_max)",
+    "conc": "MC_Cache_conc (2 clients x 2 calls; buffer 1..2; insert/remove/get/wait/clear; every interleaving with the fine-grained processor)",
+    "life": "MC_Cache_life (2 clients x 3 calls; insert/wait/clear/close/get/remove; stop rendezvous; every interleaving)",
+    "ttl": "MC_Cache_ttl (1 client x 3 calls; ttl 0 / 0.75 s; clock steps of 0.5 s up to 2.5 s; ticks at any time)",
+    "async": "MC_Cache_async (2 clients x 2 calls; async flavour: capacity-1 stop slots, awaiting remove)",
+}
+
+
+def _trace_cfg(run, name, cmp, invs):
+    path = os.path.join(run.workdir, name + ".cfg")
+    with open(path, "w") as f:
+        f.write("SPECIFICATION TSpec\nCONSTANTS\n  Clients = {1, 2, 3}\n  Idx = {1, 2, 3, 4, 5, 6, 7, 8, 9, 10}\n"
+                "  Cfl = {0, 1, 2, 3, 4, 5, 6, 7, 8}\n  Val <- TraceVal\n  SecUnits = 1000\n  Nil = Nil\n")
+        f.write("  Cmp = {%s}\n" % ", ".join('"%s"' % c for c in cmp))
+        f.write("INVARIANTS %s\n" % " ".join(invs))
+        f.write("POSTCONDITION Accepted\nCHECK_DEADLOCK FALSE\n")
+    return path
+
+
+def cache_stage(d, run, what, mcs, profiles, cmp, invs, mc_props=None):
+    """mcs: names of MC_Cache_<name>.cfg to run; profiles: [(profile, flavor, n_quick, n_thorough)]"""
+    wd = run.workdir
+    for name in mcs:
+        r = d.tlc_mc("MC_Cache.tla", "MC_Cache_%s.cfg" % name, wd, workers=12, timeout=2400, heap="12g")
+        run.add_mc(r, MC_NAMES.get(name, name))
+        bad = [v for v in r["violated"]]
+        if bad:
+            mine = [v for v in bad if v in invs or v.startswith("<")]
+            if mine:
+                run.violation("specification Cache.tla violates %s in MC_Cache_%s.cfg" % (mine, name), replay_lines=[r["out"][-8000:]])
+            else:
+                raise d.ToolError("MC_Cache_%s: invariant %s (not of this property) violated in the specification" % (name, bad))
+    run.exhaustive = True
+    cfg = _trace_cfg(run, "trace", cmp, invs)
+    hist = {}
+    total_events = 0
+    for (prof, flavor, nq, nt) in profiles:
+        n = nt if _thorough(run) else nq
+        trace = os.path.join(wd, "cache-%s-%s.ndjson" % (prof, flavor))
+        info = d.vh(["cache", "--profile", prof, "--flavor", flavor, "--n", n, "--seed", run.seed, "--out", trace], timeout=1800)
+        for k, v in info.get("hist", {}).items():
+            hist[k] = hist.get(k, 0) + v
+        total_events += info.get("events", 0)
+        files = d.split_trace(trace, os.path.join(wd, "chunks-%s-%s" % (prof, flavor)), start_events=("Init",), max_lines=1500)
+        res = d.validate_chunks("Cache_Trace.tla", cfg, files, wd, par=8, start_events=("Init",))
+        ok = d.report_trace_results(run, res, "%s [profile %s, %s]" % (what, prof, flavor))
+        run.traces += n
+        if not run.samples:
+            run.samples = d.sample_lines(trace, 3, lambda j: j.get("ev") in ("InsBegin", "PNewAdd", "PCleanupKey", "PStop"))
+            run.samples = [{k: v for k, v in s.items() if k != "post"} if isinstance(s, dict) else s for s in run.samples]
+    run.evaluations += total_events
+    run.notes["event_histogram"] = hist
+    run.notes["compared_state"] = cmp
+    run.notes["invariants_on_traces"] = invs
+    return hist
+
+
+def _need(d, hist, names):
+    for n in names:
+        if hist.get(n, 0) == 0:
+            raise d.ToolError("vacuous run: no %s event recorded" % n)
+
+
+BASE_ASSUME = ["events are recorded at the yield points of hooks H4 between critical sections (never inside one); "
+               "interleavings inside a critical section are not explored",
+               "TLC explores Cache.tla exhaustively only for the small constants named in tlc_runs",
+               "behaviours that contain the signature of a known finding (known_findings.json) are exempt from the "
+               "affected invariants from that point on"]
+
+
+def c02(d, run):
+    h = cache_stage(d, run, "real cache deviates from Cache.tla (lookup results / resident values)",
+                    ["conc", "seq"],
+                    [("conc", "sync", 40, 300), ("conc_clear", "sync", 15, 150), ("seq", "sync", 15, 100), ("seq_veto", "sync", 10, 80), ("ttl", "sync", 10, 80)],
+                    ["store", "out", "chan"], ["ResidentOwned", "NeverTwice", "NothingLost"])
+    _need(d, h, ["Get", "GetMut", "InsBegin", "RemStore", "PNewStore"])
+    run.nontrivial = h.get("Get", 0) + h.get("GetMut", 0)
+    run.rule = ("one evaluation = one recorded critical section of the real cache under the baton scheduler; non-trivial = "
+                "lookups (get/get_mut), each compared with the value the specification says is visible for that key at that point")
+    run.assumptions = BASE_ASSUME
+
+
+def c06(d, run):
+    h = cache_stage(d, run, "real cache deviates from Cache.tla (resident entries vs policy charges)",
+                    ["conc", "seq", "ttl"],
+                    [("conc", "sync", 30, 300), ("evict", "sync", 25, 200), ("seq", "sync", 15, 150), ("ttl", "sync", 10, 80), ("conc_clear", "sync", 10, 100)],
+                    ["store", "costs", "chan"], ["Agree", "UsedIsSum"])
+    _need(d, h, ["PNewAdd", "PNewStore", "PDel", "PDelPolicy", "PVictim", "PCleanupKey", "End"])
+    run.nontrivial = h.get("End", 0) + h.get("WaitRet", 0) + h.get("PWait", 0)
+    run.rule = ("one evaluation = one recorded critical section; non-trivial = quiescent points reached (end of run after drain, "
+                "wait() returns) at which TLC evaluates Resident = Charged on the recorded state")
+    run.assumptions = BASE_ASSUME
+
+
+def c08(d, run):
+    h = cache_stage(d, run, "real cache deviates from Cache.tla (callbacks / value conservation)",
+                    ["conc", "seq", "ttl"],
+                    [("conc", "sync", 30, 300), ("evict", "sync", 25, 200), ("seq", "sync", 15, 150), ("seq_veto", "sync", 10, 60), ("ttl", "sync", 10, 80)],
+                    ["store", "cbs", "chan", "costs"], ["Conservation", "NeverTwice", "NothingLost", "ResidentOwned"])
+    _need(d, h, ["PNewStore", "PVictim", "PDelPolicy", "PCleanupDone", "RemStore"])
+    run.nontrivial = sum(h.get(k, 0) for k in ("PVictim", "PDelPolicy", "PCleanupDone", "RemStore", "PCleanItem"))
+    run.rule = ("one evaluation = one recorded critical section, with the callbacks (kind, value id, cost) fired inside it; "
+                "non-trivial = sections that can hand a value to a callback; TLC compares them with the specification's and "
+                "evaluates conservation at every quiescent state")
+    run.assumptions = BASE_ASSUME
+
+
+def c10(d, run):
+    h = cache_stage(d, run, "real cache deviates from Cache.tla (wait barrier / termination)",
+                    ["life", "conc"],
+                    [("life", "sync", 40, 300), ("conc_clear", "sync", 25, 150), ("conc", "sync", 15, 100)],
+                    ["chan", "out", "store", "costs"], ["NoOrphan", "Agree"])
+    _need(d, h, ["WaitSend", "WaitBlock", "PWait", "PCleanItem", "PStop"])
+    run.nontrivial = h.get("WaitSend", 0)
+    run.rule = ("non-trivial = wait() calls; each must return exactly when the specification releases its marker, with the "
+                "state at return equal to the specification's (barrier), and a waiter may stay blocked only under known finding D6")
+    run.assumptions = BASE_ASSUME + ["liveness on the implementation side is judged at the end of each run: after everything that can "
+                                     "run has run, a client still inside wg.wait() is reported as hung"]
+    _known(d, run, "D6")
+
+
+def c12(d, run):
+    h = cache_stage(d, run, "real cache deviates from Cache.tla (close protocol)",
+                    ["life"],
+                    [("life", "sync", 50, 400)],
+                    ["life", "out", "chan", "store"], ["NoOrphan"])
+    _need(d, h, ["ClsStopSend", "PStop", "LStop", "ClsFlag", "ClsStopFail"])
+    run.nontrivial = h.get("ClrSend", 0)
+    run.rule = ("non-trivial = close()/clear() calls racing other operations; every result after close, every blocking point "
+                "and the exit of both workers must follow the specification")
+    run.assumptions = BASE_ASSUME + ["select! fairness: a continuously ready arm is eventually taken (the harness takes every ready arm)"]
+
+
+def c17(d, run):
+    h = cache_stage(d, run, "real cache deviates from Cache.tla (metrics)",
+                    ["seq", "conc"],
+                    [("seq", "sync", 25, 150), ("conc", "sync", 25, 200), ("seq_internal", "sync", 10, 60), ("ttl", "sync", 10, 60)],
+                    ["met", "costs", "chan", "store"], ["MetricsLaws", "UsedIsSum"])
+    _need(d, h, ["Get", "PNewAdd", "PUpd", "PVictim", "ClrMetrics"])
+    run.nontrivial = h.get("End", 0) + h.get("PWait", 0)
+    run.rule = ("every counter is compared after every recorded critical section; non-trivial = quiescent points at which TLC "
+                "evaluates the conservation laws")
+    run.assumptions = BASE_ASSUME
+
+
+def _known(d, run, tag):
+    for f in d.known_findings().get("findings", []):
+        if f.get("id") == tag and run.pid in f.get("properties", []):
+            info = d.vh(["scenario", "--name", tag.lower(), "--out", os.path.join(run.workdir, "scenario-%s.ndjson" % tag)])
+            if info.get("reproduced"):
+                run.known_finding("%s %s" % (tag, f.get("signature")))
+
+
 CHECKS = {
+    "C02": c02,
+    "C06": c06,
+    "C08": c08,
+    "C10": c10,
+    "C12": c12,
+    "C17": c17,
     "C01": c01,
     "C07": c07,
     "C13": c13,
